@@ -152,3 +152,26 @@ func (v *VerifStores) VerifPutStandardCredit(wid string, op wire.OutPoint, heigh
 	v.Root.Sub(bucketCredits).Set(keyCredit(&op.Hash, op.Index, c.block), val)
 	v.Root.Sub(bucketUnspent).Set(canonicalUnspentKey(wid, &op.Hash, op.Index), valueUnspent(c.block))
 }
+
+// VerifPutCoin stores a mined, unspent coin of wallet wid with the given class (0 standard, 1 staking, 2 binding)
+// and maturity, and optionally a pending spender's marker on it.
+func (v *VerifStores) VerifPutCoin(wid string, op wire.OutPoint, height uint64, blockHash wire.Hash, amount uint64, scriptHash []byte, class int, maturity uint32, pendingSpender *wire.Hash) {
+	amt, err := massutil.NewAmountFromUint(amount)
+	rt.Assert(err == nil, "harness-amount")
+	c := &credit{outPoint: op, block: &BlockMeta{Height: height, Hash: blockHash}, amount: amt, scriptHash: scriptHash, maturity: maturity}
+	switch class {
+	case 1:
+		c.flags.Class = ClassStakingUtxo
+	case 2:
+		c.flags.Class = ClassBindingUtxo
+	default:
+		c.flags.Class = ClassStandardUtxo
+	}
+	val, err := valueUnspentCredit(c)
+	rt.Assert(err == nil, "credit-value-encodes")
+	v.Root.Sub(bucketCredits).Set(keyCredit(&op.Hash, op.Index, c.block), val)
+	v.Root.Sub(bucketUnspent).Set(canonicalUnspentKey(wid, &op.Hash, op.Index), valueUnspent(c.block))
+	if pendingSpender != nil {
+		v.Root.Sub(bucketUnminedInputs).Set(canonicalOutPoint(&op.Hash, op.Index), pendingSpender[:])
+	}
+}
